@@ -2,6 +2,7 @@ package harness
 
 import (
 	"fmt"
+	"os"
 	"path/filepath"
 	"sort"
 	"strings"
@@ -66,6 +67,7 @@ type CallRec struct {
 	StaleAtStart     bool
 	Retry            bool
 	AttemptsBefore   int
+	OpenDigest       string // digest of the view right after a successful open (porcupine read output)
 	TimeFaulted      bool // a time fault hit this task while the call was executing
 	tfBefore         int
 	FailuresBefore   int
@@ -113,6 +115,7 @@ type World struct {
 	StopOn     string // property whose first violation stops the run ("" = never stop early, "*" any)
 	NameCheckRelevant bool
 	DeepReads bool
+	Porcupine bool
 	CrashPoints []string // class of the call each crash preceded
 	CrashEnum bool
 	DeepRefsFor bool
@@ -149,7 +152,15 @@ func (w *World) Latest() *Version { return w.Versions[len(w.Versions)-1] }
 
 func (w *World) probe(name string) { w.Probes[name]++ }
 
+// porcupineOnly (VERIF_PORCUPINE_ONLY=1) is a sensitivity experiment: the
+// disk-based C04 monitors are muted so that only the black-box
+// linearizability check can report.
+var porcupineOnly = os.Getenv("VERIF_PORCUPINE_ONLY") != ""
+
 func (w *World) violate(prop, monitor, sig, detail string) {
+	if porcupineOnly && prop == "C04" && monitor != "porcupine" {
+		return
+	}
 	v := Violation{Property: prop, Monitor: monitor, Signature: prop + "/" + monitor + "/" + sig, Detail: detail, Seq: w.Sim.EventCount()}
 	w.Violations = append(w.Violations, v)
 	// C06: after a crash, a failing open, a broken list, a wrong final
